@@ -165,7 +165,9 @@ static void file_roundtrip(const std::vector<TypedKey> &keys) {
     std::string k = "k" + std::to_string(i);
     // (the setters are given the bracketed spelling of the section for some keys, the getters below the plain one)
     // (the section names "ab" and "bA" are different names with the same djb2 hash)
-    const char *sec = (i % 3 == 0) ? nullptr : (i % 3 == 1 ? (i % 4 == 1 ? "[ab]" : "ab") : (i % 4 == 2 ? "[bA]" : "bA"));
+    // (group-less: NULL, "" and "[]" are the same for a setter)
+    static const char *const NOSEC[3] = {nullptr, "", "[]"};
+    const char *sec = (i % 3 == 0) ? NOSEC[(i / 3) % 3] : (i % 3 == 1 ? (i % 4 == 1 ? "[ab]" : "ab") : (i % 4 == 2 ? "[bA]" : "bA"));
     uint64_t b = keys[i].bits;
     // every other key goes through the header's generic econf_setValue() macro (C only: through the shim)
     if (i % 2 == 1 && keys[i].type < 6) {
